@@ -888,13 +888,15 @@ func (i *Inc) handle(m message.Message) {
 			return "?"
 		}
 		groups := absGroups(t.StreamChunk.DataPointGroups, aliasName)
-		b.mu.Unlock()
 		ids := []string{}
 		for _, d := range t.DataIDs {
 			ids = append(ids, d.Name)
 		}
+		// the receipt is logged before the chunk becomes visible to the acknowledging side (still under b.mu): otherwise the cooperative
+		// tail can acknowledge it, the client can finish its Close and the close request can be logged BEFORE this event
 		b.rec.Log("BRecvChunk", "c", i.c, "alias", int(t.StreamIDAlias), "sid", sid, "seq", int(t.StreamChunk.SequenceNumber),
 			"groups", groups, "ids", ids)
+		b.mu.Unlock()
 		if r := b.findRule("UpstreamChunk", i.c, "cutOnRecv"); r != nil {
 			b.rec.Log("Fault", "c", i.c, "do", "cutOnRecv", "on", kind)
 			i.cut("script")
